@@ -108,7 +108,8 @@ pub open spec fn target_file(uri: Seq<char>) -> Option<Seq<char>> {
 }
 // the single part that answers a request without a Range header for the regular file f: all of its bytes, its media type
 pub open spec fn whole_file_part(f: Seq<char>, p: ContentRange) -> bool {
-    p.range.start == 0 && p.body@ == file_content(f) && p.size@ == dec(file_content(f).len()) && p.unit@ == "bytes"@ && p.content_type@ == mime_of(f)
+    p.range.start == 0 && p.body@ == file_content(f) && p.size@ == dec(file_content(f).len()) && p.unit@ == "bytes"@
+    && (mime_listed(f) ==> p.content_type@ == mime_of(f))
 }
 pub proof fn lemma_whole_slice(c: Seq<u8>, end: int)
     requires end + 1 >= c.len(),
